@@ -212,7 +212,7 @@ CHECKS = [
         "timestamp, and handle_msg is reached only under a 0418 test; (R3) from the handlers' complete decision tables: an RP null entry (idx always 00) "
         "is ignored, a message without a log index does not touch the map, a null entry truncates, every other entry is installed unless the map already "
         "holds exactly its timestamp at that index; (R4) the retrieval loop is bounded by 64, asks this controller for the loop index with "
-        "wait_for_reply=True, and a null reply goes through the index-restoring helper and ends the loop; (R6) that helper writes the index at the frame "
+        "wait_for_reply=True, a null reply goes through the index-restoring helper and ends the loop, and no return of get_faultlog bypasses the request loop (no answer from a cache of what is believed); (R6) that helper writes the index at the frame "
         "columns and payload offset where COMMAND_REGEX/parser_0418 put it.",
         "note": BASE_NOTE,
     },
